@@ -169,6 +169,15 @@ def run(facts, rep, tier):
     # shared clauses
     tb = C04.tables(facts)
     C04.dangling(facts, _Sub(rep, "C06"), vs, vidx, tb)
+    # "for the same random draws": an operation whose evaluation draws from the PRNG is neither folded nor merged
+    sub = _Sub(rep, "C06")
+    sub.rule("C04.R", "the evaluator arm of a variant uses the evaluator's PRNG iff is_randomizing(variant) is Ok(true) (shared with C04.R)")
+    sub.rule("C04.F", "variants whose evaluation draws from the PRNG are never folded into constants (shared with C04.F, restricted to those variants)")
+    sub.rule("C04.D", "variants whose evaluation draws from the PRNG are never merged by de-duplication (shared with C04.D, restricted to those variants)")
+    C04.randomizing_complete(facts, sub, tb, vs, vidx)
+    pv = C04.prng_variants(facts, vs)
+    if rep.anchor("C06.R", "variants whose evaluator arm draws randomness", pv):
+        C04.fold_and_merge_guards(facts, sub, tb, vidx, [(n, "randomness-drawing") for n in pv])
 
 
 # operations whose result does not depend on the order of their two operands (elementwise, broadcasting is symmetric)
